@@ -64,6 +64,18 @@ def idiom_while_not_in(fn):
     return None
 
 
+def idiom_while_in(fn):
+    """`while cand in P: cand = <next candidate>` - the loop can only be left with a candidate that is not in P."""
+    for n in ast.walk(fn):
+        if isinstance(n, ast.While) and isinstance(n.test, ast.Compare) and len(n.test.ops) == 1 and isinstance(n.test.ops[0], ast.In) \
+                and isinstance(n.test.left, ast.Name) and not n.orelse:
+            v = n.test.left.id
+            if any(isinstance(a, ast.Assign) and any(isinstance(t, ast.Name) and t.id == v for t in a.targets) for a in ast.walk(n)) \
+                    and not any(isinstance(x, ast.Break) for x in ast.walk(n)):
+                return "loop while the candidate is in P"
+    return None
+
+
 def idiom_sorted_gap(fn):
     for n in ast.walk(fn):
         if isinstance(n, ast.For) and isinstance(n.iter, ast.Call) and dotted(n.iter.func) == "enumerate":
@@ -96,7 +108,11 @@ def _int_elements(fn, seq, depth=0):
     if depth > 4 or seq is None:
         return False
     if isinstance(seq, ast.Name):
-        return _int_elements(fn, _binding(fn, seq.id), depth + 1)
+        b_ = _binding(fn, seq.id)
+        if b_ is None and isinstance(fn, (ast.FunctionDef, ast.AsyncFunctionDef)) and seq.id in [a_.arg for a_ in fn.args.args]:
+            srcs = PARAM_SOURCES.get((fn.name, seq.id), [])
+            return bool(srcs) and all(_int_elements(cf, av, depth + 1) for cf, av in srcs)
+        return _int_elements(fn, b_, depth + 1)
     if isinstance(seq, ast.Call) and dotted(seq.func) in ("sorted", "list", "set", "tuple") and seq.args:
         return _int_elements(fn, seq.args[0], depth + 1)
     if isinstance(seq, (ast.ListComp, ast.GeneratorExp, ast.SetComp)):
@@ -229,6 +245,12 @@ def fresh_expr(e, fn, par, depth=0):
             if isinstance(n, ast.FunctionDef) and n is not fn and n.name == d:
                 rets = [r for r in ast.walk(n) if isinstance(r, ast.Return)]
                 return bool(rets) and all(fresh_expr(r.value, n, _parents(n), depth + 1) for r in rets)
+        # call of a helper method / module-level function of the repository (resolved by the caller through HELPERS)
+        g = HELPERS.get(d.split(".")[-1])
+        if g is not None and g is not fn:
+            rets = [r for r in ast.walk(g) if isinstance(r, ast.Return)]
+            par_g = _parents(g)
+            return bool(rets) and all(_fresh_return(r, g, par_g, depth + 1) for r in rets)
         return False
     if isinstance(e, ast.IfExp):
         return fresh_expr(e.body, fn, par, depth + 1) and (isinstance(e.orelse, ast.Constant) or fresh_expr(e.orelse, fn, par, depth + 1))
@@ -240,6 +262,10 @@ def fresh_expr(e, fn, par, depth=0):
                 if isinstance(e, ast.Attribute):
                     return True
         if isinstance(e, ast.Name):
+            for n in ast.walk(fn):
+                if isinstance(n, ast.While) and isinstance(n.test, ast.Compare) and isinstance(n.test.ops[0], ast.In) \
+                        and isinstance(n.test.left, ast.Name) and n.test.left.id == e.id and not any(isinstance(x, ast.Break) for x in ast.walk(n)):
+                    return True  # the loop is only left when the candidate is not in the population
             # loop candidate guarded by `not in` (the return, or the break that ends the loop, sits inside the guard)
             for n in ast.walk(fn):
                 if isinstance(n, ast.If) and isinstance(n.test, ast.Compare) and len(n.test.ops) == 1 \
@@ -259,7 +285,22 @@ def fresh_expr(e, fn, par, depth=0):
     return False
 
 
-IDIOMS = [idiom_max_plus_one, idiom_first_gap, idiom_while_not_in, idiom_sorted_gap, idiom_next_unused_enumerate,
+PARAM_SOURCES = {}  # (helper name, parameter) -> [(caller FunctionDef, argument expression)]
+HELPERS = {}  # name -> FunctionDef of repository helpers reachable from the allocator under analysis (set per allocator)
+
+
+def _fresh_return(r, fn, par, depth=0):
+    if fresh_expr(r.value, fn, par, depth):
+        return True
+    p = par.get(id(r))
+    # a constant (or a named lower bound) returned under `if not <population>:` is fresh: nothing is in use yet
+    if isinstance(p, ast.If) and isinstance(p.test, ast.UnaryOp) and isinstance(p.test.op, ast.Not) and r in p.body \
+            and isinstance(r.value, (ast.Constant, ast.Name)):
+        return True
+    return False
+
+
+IDIOMS = [idiom_max_plus_one, idiom_first_gap, idiom_while_not_in, idiom_while_in, idiom_sorted_gap, idiom_next_unused_enumerate,
           idiom_len_plus_one, idiom_counter]
 
 # allocator -> (module, qualname, population patterns that must all appear in the source, forbidden patterns)
@@ -297,38 +338,87 @@ def run(ctx):
 
     # -- R6.2 ------------------------------------------------------------------------------------------
     ctx.rule("R6.2", "allocators: wide population + fresh-value idiom")
+    from sa.inline import walk_expanded
+
     for mod, q, must, forbid in ALLOCATORS:
         f = prog.func(mod, q)
-        src = ast.unparse(f.node)
-        # include nested helper functions (first_available_*_idx)
-        idi = [r for r in (fn(f.node) for fn in IDIOMS) if r]
-        if q.endswith(".max_shape_id") and any(isinstance(n, ast.Call) and dotted(n.func) == "max" for n in ast.walk(f.node)):
+        # the allocator together with the helpers / properties of the repository it computes through (extract-method refactors
+        # move the scan or the population query into a helper; the rule is about the computation, not about one function body)
+        reach = []
+        for _n, owner in walk_expanded(prog, f, depth=2):
+            if owner not in reach:
+                reach.append(owner)
+        src = "\n".join(ast.unparse(g.node) for g in reach)
+        HELPERS.clear()
+        for g in reach[1:]:
+            HELPERS[g.name] = g.node
+        # argument sources of helper parameters (for element-type questions about a parameter)
+        PARAM_SOURCES.clear()
+        for g in reach:
+            for c in ast.walk(g.node):
+                if isinstance(c, ast.Call) and (dotted(c.func) or "").split(".")[-1] in HELPERS:
+                    h = HELPERS[(dotted(c.func) or "").split(".")[-1]]
+                    ps = [a_.arg for a_ in h.args.args if a_.arg not in ("self", "cls")]
+                    for pn, av in zip(ps, c.args):
+                        PARAM_SOURCES.setdefault((h.name, pn), []).append((g.node, av))
+        idi = []
+        for g in reach:
+            idi += [r for r in (fn(g.node) for fn in IDIOMS) if r]
+        if q.endswith(".max_shape_id") and any(isinstance(n, ast.Call) and dotted(n.func) == "max" for g in reach for n in ast.walk(g.node)):
             idi = ["population maximum (consumed by _next_shape_id as max+1)"]
         miss = [m for m in must if m not in src]
         bad = [x for x in forbid if x in src]
         key = q
+        exh = next((x for x in (scan_exhaustion_problem(g.node) for g in reach) if x), None)
+        gap = next((x for x in (gap_scan_problem(g.node) for g in reach) if x), None)
+        stale = [] if q.endswith(".max_shape_id") else _stale_returns(f)
         if miss or bad:
             ctx.violation("R6.2", key + ":population", "allocator does not draw from the whole population (missing %s%s)" % (
                 miss, (", found narrowing " + str(bad)) if bad else ""), file=f.file, line=f.line)
         elif not idi:
             ctx.violation("R6.2", key + ":idiom", "no recognised fresh-value idiom in the allocator", file=f.file, line=f.line)
-        elif scan_exhaustion_problem(f.node):
-            ctx.violation("R6.2", key + ":exhaustion", scan_exhaustion_problem(f.node), file=f.file, line=f.line)
-        elif any("gap" in i or "enumerate" in i for i in idi) and gap_scan_problem(f.node):
-            ctx.violation("R6.2", key + ":order", gap_scan_problem(f.node), file=f.file, line=f.line)
-        elif not q.endswith(".max_shape_id") and _stale_returns(f):
-            r = _stale_returns(f)[0]
+        elif exh:
+            ctx.violation("R6.2", key + ":exhaustion", exh, file=f.file, line=f.line)
+        elif any("gap" in i or "enumerate" in i for i in idi) and gap:
+            ctx.violation("R6.2", key + ":order", gap, file=f.file, line=f.line)
+        elif stale:
+            r = stale[0]
             ctx.violation("R6.2", key + ":return", "a return path yields `%s`, which is not fresh by construction" % ast.unparse(r.value),
                           file=f.file, line=r.lineno)
         else:
-            ctx.ok("R6.2", key, sample={"allocator": f.fq, "population": must, "idiom": idi})
+            ctx.ok("R6.2", key, sample={"allocator": f.fq, "population": must, "idiom": sorted(set(idi)), "through": [g.qualname for g in reach[1:]]})
     ctx.count("allocators", len(ALLOCATORS))
     # slide-id bounds
     f = prog.func("pptx.oxml.presentation", "CT_SlideIdList._next_id")
+    # the bounds the allocator works with: the constants compared with the candidate (`simple_next <= MAX`) and the start of the
+    # fallback scan (`enumerate(..., start=MIN)` / `max([MIN - 1] + ids)`), folded wherever they are defined
+    reach = []
+    for _n, owner in walk_expanded(prog, f, depth=2):
+        if owner not in reach:
+            reach.append(owner)
     consts = {}
-    for n in walk_own(f.node):
-        if isinstance(n, ast.Assign) and isinstance(n.targets[0], ast.Name) and isinstance(n.value, ast.Constant):
-            consts[n.targets[0].id] = n.value.value
+    for g in reach:
+        env = {}
+        for n in walk_own(g.node):
+            if isinstance(n, ast.Assign) and isinstance(n.targets[0], ast.Name):
+                v = prog.const(n.value, g.module, env)
+                if isinstance(v, int):
+                    env[n.targets[0].id] = v
+        for n in ast.walk(g.node):
+            if isinstance(n, ast.Compare) and len(n.ops) == 1 and isinstance(n.ops[0], (ast.LtE, ast.Lt)) and len(n.comparators) == 1:
+                v = prog.const(n.comparators[0], g.module, env)
+                if isinstance(v, int) and v > 1 << 20:
+                    consts["MAX_SLIDE_ID"] = v if isinstance(n.ops[0], ast.LtE) else v - 1
+            if isinstance(n, ast.Compare) and len(n.ops) == 2:  # MIN <= id <= MAX
+                lo_, hi_ = prog.const(n.left, g.module, env), prog.const(n.comparators[1], g.module, env)
+                if isinstance(lo_, int) and isinstance(hi_, int):
+                    consts["MIN_SLIDE_ID"], consts["MAX_SLIDE_ID"] = lo_, hi_
+            if isinstance(n, ast.Call) and dotted(n.func) == "enumerate":
+                for k in n.keywords:
+                    if k.arg == "start":
+                        v = prog.const(k.value, g.module, env)
+                        if isinstance(v, int):
+                            consts["MIN_SLIDE_ID"] = v
     from sa.intervals import SimpleTypes
 
     st = SimpleTypes(prog)
@@ -473,12 +563,7 @@ def _stale_returns(f):
     par = _parents(f.node)
     out = []
     for r in walk_own(f.node):
-        if isinstance(r, ast.Return) and r.value is not None and not fresh_expr(r.value, f.node, par):
-            # a constant returned under `if not <population>:` is fresh (nothing is in use yet)
-            p = par.get(id(r))
-            if isinstance(r.value, ast.Constant) and isinstance(p, ast.If) and isinstance(p.test, ast.UnaryOp) \
-                    and isinstance(p.test.op, ast.Not) and r in p.body:
-                continue
+        if isinstance(r, ast.Return) and r.value is not None and not _fresh_return(r, f.node, par):
             out.append(r)
     return out
 
